@@ -250,6 +250,10 @@ class Check:
             print('KNOWN-FINDING: property=%s %s [%s]' % (self.pid, h['what'], h['id']))
         rc = 0
         replay = None
+        if self.violations and not self.cov.get('samples'):
+            # a run that only met violating cases still shows what its cases look like
+            for v in self.violations[:2]:
+                self.cov.setdefault('samples', []).append({'kind': 'violating case', 'key': v['key'][:300], 'case': json.loads(json.dumps(v.get('case'), default=str))})
         if self.violations:
             os.makedirs(os.path.join(OUTROOT, 'replays'), exist_ok=True)
             replay = os.path.join(OUTROOT, 'replays', '%s-%s-%d.json' % (self.pid, self.tier, self.seed))
